@@ -49,3 +49,159 @@ pub fn run_collect(schema: &s::Document, doc: &q::Document) -> Vec<String> {
     out.push("#ORDERED".to_string());
     out
 }
+
+// ---------------------------------------------------------------- C18: helper traits, exhaustively per schema
+use graphql_tools::validation::rules::do_types_overlap;
+
+fn tdname(t: &s::TypeDefinition) -> String {
+    crate::render::td(t)
+}
+
+/// all type references over `names` with wrappers up to `depth` (including shapes the grammar
+/// cannot express, such as T!!, which the helper functions must still handle totally)
+pub fn type_refs(names: &[String], depth: usize) -> Vec<q::Type> {
+    let mut cur: Vec<q::Type> = names.iter().map(|n| q::Type::NamedType(n.clone())).collect();
+    let mut all = cur.clone();
+    for _ in 0..depth {
+        let mut next = vec![];
+        for t in &cur {
+            next.push(q::Type::ListType(Box::new(t.clone())));
+            next.push(q::Type::NonNullType(Box::new(t.clone())));
+        }
+        all.extend(next.clone());
+        cur = next;
+    }
+    all
+}
+
+pub fn value_pool() -> Vec<q::Value> {
+    use std::collections::BTreeMap;
+    let atoms: Vec<q::Value> = vec![
+        q::Value::Variable("a".into()),
+        q::Value::Variable("b".into()),
+        graphql_tools::parser::parse_query::<String>("{f(x:1)}").map(|d| first_arg(&d.into_static())).unwrap(),
+        graphql_tools::parser::parse_query::<String>("{f(x:2)}").map(|d| first_arg(&d.into_static())).unwrap(),
+        q::Value::Float(1.5),
+        q::Value::Float(0.0),
+        q::Value::Float(-0.0),
+        q::Value::String("x".into()),
+        q::Value::String("".into()),
+        q::Value::Boolean(true),
+        q::Value::Boolean(false),
+        q::Value::Null,
+        q::Value::Enum("A".into()),
+        q::Value::Enum("a".into()),
+    ];
+    let mut out = atoms.clone();
+    let small: Vec<q::Value> = atoms.iter().take(5).cloned().chain([q::Value::Null]).collect();
+    out.push(q::Value::List(vec![]));
+    for x in &small {
+        out.push(q::Value::List(vec![x.clone()]));
+        for y in small.iter().take(3) {
+            out.push(q::Value::List(vec![x.clone(), y.clone()]));
+        }
+    }
+    out.push(q::Value::Object(BTreeMap::new()));
+    for x in small.iter().take(4) {
+        for k in ["a", "b"] {
+            let mut m = BTreeMap::new();
+            m.insert(k.to_string(), x.clone());
+            out.push(q::Value::Object(m.clone()));
+            m.insert("c".to_string(), q::Value::List(vec![x.clone(), q::Value::Variable("a".into())]));
+            out.push(q::Value::Object(m));
+        }
+    }
+    // depth 3
+    let l1 = q::Value::List(vec![q::Value::List(vec![q::Value::Variable("a".into())]), q::Value::List(vec![])]);
+    let l2 = q::Value::List(vec![q::Value::List(vec![q::Value::Variable("a".into())])]);
+    let mut m = BTreeMap::new();
+    m.insert("a".to_string(), l1.clone());
+    out.push(l1);
+    out.push(l2);
+    out.push(q::Value::Object(m));
+    out
+}
+
+fn first_arg(d: &q::Document) -> q::Value {
+    if let q::Definition::Operation(q::OperationDefinition::SelectionSet(ss)) = &d.definitions[0] {
+        if let q::Selection::Field(f) = &ss.items[0] {
+            return f.arguments[0].1.clone();
+        }
+    }
+    q::Value::Null
+}
+
+fn bits<I: Iterator<Item = bool>>(it: I) -> String {
+    it.map(|b| if b { '1' } else { '0' }).collect()
+}
+
+pub fn run_ext(schema: &s::Document, depth: usize) -> Vec<String> {
+    let mut out = vec![];
+    let tdefs: Vec<&s::TypeDefinition> = schema
+        .definitions
+        .iter()
+        .filter_map(|d| match d {
+            s::Definition::TypeDefinition(t) => Some(t),
+            _ => None,
+        })
+        .collect();
+    let mut names: Vec<String> = tdefs.iter().map(|t| t.name().to_string()).collect();
+    names.push("ZzAbsent".to_string());
+    // look-ups
+    for n in &names {
+        out.push(format!("TBN {} {}", n, crate::render::otd(schema.type_by_name(n))));
+        out.push(format!("OBN {} {}", n, schema.object_type_by_name(n).map(|o| o.name.clone()).unwrap_or("-".into())));
+        out.push(format!("TMAP {} {}", n, schema.type_map().get(n.as_str()).map(|t| tdname(t)).unwrap_or("-".into())));
+    }
+    for d in &schema.definitions {
+        if let s::Definition::DirectiveDefinition(dd) = d {
+            out.push(format!("DBN {} {}", dd.name, schema.directive_by_name(&dd.name).map(|x| x.arguments.len().to_string()).unwrap_or("-".into())));
+        }
+    }
+    out.push(format!("DBN zzAbsent {}", schema.directive_by_name("zzAbsent").map(|_| "?".to_string()).unwrap_or("-".into())));
+    // roots (query_type panics without a query root: only called on well-formed schemas)
+    out.push(format!("ROOTS {} {} {}", schema.query_type().name, schema.mutation_type().map(|t| t.name.clone()).unwrap_or("-".into()),
+        schema.subscription_type().map(|t| t.name.clone()).unwrap_or("-".into())));
+    // fields
+    for t in &tdefs {
+        let mut fnames: Vec<String> = vec!["zzAbsent".into()];
+        match t {
+            s::TypeDefinition::Object(o) => fnames.extend(o.fields.iter().map(|f| f.name.clone())),
+            s::TypeDefinition::Interface(o) => fnames.extend(o.fields.iter().map(|f| f.name.clone())),
+            s::TypeDefinition::InputObject(o) => fnames.extend(o.fields.iter().map(|f| f.name.clone())),
+            _ => {}
+        }
+        for f in &fnames {
+            out.push(format!("FBN {} {} {} {}", t.name(), f,
+                t.field_by_name(f).map(|x| crate::sx::ty_display(&x.field_type)).unwrap_or("-".into()),
+                t.input_field_by_name(f).map(|x| format!("{}:{}", crate::sx::ty_display(&x.value_type), x.is_required())).unwrap_or("-".into())));
+        }
+        let mut pt: Vec<String> = t.possible_types(schema).iter().map(|o| o.name.clone()).collect();
+        pt.sort();
+        out.push(format!("PT {} {}", t.name(), pt.join(",")));
+        out.push(format!("KIND {} {}", t.name(), bits([t.is_leaf_type(), t.is_composite_type(), t.is_input_type(), t.is_object_type(), t.is_union_type(), t.is_interface_type(), t.is_enum_type(), t.is_scalar_type(), t.is_abstract_type()].into_iter())));
+    }
+    // named subtyping, possible type, overlap: all pairs
+    for a in &names {
+        out.push(format!("NST {} {}", a, bits(names.iter().map(|b| schema.is_named_subtype(a, b)))));
+    }
+    for a in &tdefs {
+        out.push(format!("IPT {} {}", a.name(), bits(tdefs.iter().map(|b| schema.is_possible_type(a, b)))));
+        if a.is_composite_type() {
+            out.push(format!("OVL {} {}", a.name(), bits(tdefs.iter().filter(|b| b.is_composite_type()).map(|b| do_types_overlap(schema, a, b)))));
+        }
+    }
+    // subtyping on all pairs of type references
+    let refs = type_refs(&names, depth);
+    for a in &refs {
+        out.push(format!("SUB {} {}", crate::sx::ty_display(a), bits(refs.iter().map(|b| schema.is_subtype(a, b)))));
+        out.push(format!("TY {} {} {}", crate::sx::ty_display(a), a.inner_type(), bits([a.is_non_null(), a.is_list_type(), a.is_named_type()].into_iter())));
+    }
+    // values
+    let vals = value_pool();
+    for a in &vals {
+        out.push(format!("CMP {} {}", crate::sx::value(a), bits(vals.iter().map(|b| a.compare(b)))));
+        out.push(format!("VARS {} {}", crate::sx::value(a), a.variables_in_use().join(",")));
+    }
+    out
+}
